@@ -7,6 +7,19 @@ VERIF = os.path.dirname(os.path.dirname(os.path.abspath(__file__)))
 PY = '/venv/bin/python'
 
 CHECKS = {
+    'C16': dict(
+        level='other',
+        text='Decides data queries on a finite family: DataQuerent.query (with the repository\'s own path parser) is folded on small hand-built wired '
+             'trees (sequence, fixed / delayed / zero-count / nested replications, factor, associated, quality and marker attributes; three '
+             'uncompressed subsets and the compressed sharing of one tree) for 33 child / attribute paths with int, negative and multi-part '
+             'slices, 5 bare IDs, 8 subset selectors and 5 paths that designate no value; each result is compared with a reference evaluation '
+             'of the path over the nested JSON rendering of the same tree (itself folded from NestedJsonRenderer): envelopes per replication, '
+             'lists per repetition, document order, flat-order completeness of bare IDs, subset restriction, QueryError for valueless targets.',
+        note='The reference implements only what the property states (/ and . steps, slices, bare IDs of ordinary elements, @ selectors); the '
+             'descendant separator in the middle of a path is not decided. Results on real messages also depend on the wiring (C07, C09). The '
+             'first design round listed C16 as not applicable; the fold technique built for C09/C14 made this partial claim possible.',
+        technique='static analysis: constant folding of the query evaluator on concrete abstract trees against a reference evaluation over the folded nested-JSON rendering',
+        ref='3 C16'),
     'C10': dict(
         level='other',
         text='Decides BufrMessage.subset by folding it over a family of index collections (any order, repeats, single, full, out of range by one) on '
